@@ -5,6 +5,7 @@
    Flat.owned_ptr_fields_lay. *)
 From SF Require Import Base.Prelude Gen.Generated Unsized.Types Unsized.Parse Unsized.Machine Unsized.Ops.
 From SF Require Import Unsized.Proofs.EncodeParse Unsized.Proofs.Mem Unsized.Proofs.Notify Unsized.Proofs.Flat Unsized.Proofs.Layout.
+From SF Require Import Unsized.Proofs.EnumFacts.
 
 Arguments Z.add : simpl never.
 Arguments Z.sub : simpl never.
@@ -247,7 +248,17 @@ Proof.
       rewrite (Ht l1 v q pre (encode (TStruct ts) (VStruct vs0) ++ post) Hp1 Hok1 Hv HLq). cbn [obind].
       specialize (IHts vs0 ps (pre ++ encode t v) last Hp2 Hok2 Hvs).
       rewrite zlen_app, <- app_assoc in IHts. rewrite (IHts HLr). reflexivity.
-  - cbn in Hpl. discriminate.
+  - (* enum *)
+    destruct v as [| | | |d pv]; try (cbn in Hwf; discriminate).
+    destruct p as [| | | | |st d' q]; try (cbn [Lay] in HL; contradiction).
+    apply Lay_enum in HL. destruct HL as (-> & -> & vt' & Hf' & HLq).
+    destruct (wf_enum_inv _ _ _ _ Hwf) as (Hd & vt & Hf & Hp). rewrite Hf in Hf'. injection Hf' as <-.
+    pose proof (ty_ok_enum_variant _ _ _ _ _ Hok Hf) as Hokv.
+    pose proof (plain_enum_find _ _ _ _ Hpl Hf) as Hplv.
+    enum_ih IH Hf IHv.
+    rewrite owned_ptr_enum, Hf, (encode_enum_some _ _ _ _ _ Hf), <- app_assoc.
+    specialize (IHv last pv q (pre ++ le_bytes rw d) post Hplv Hokv Hp).
+    rewrite zlen_app, zlen_le_bytes, <- app_assoc in IHv. rewrite (IHv HLq). reflexivity.
 Qed.
 
 (* the canonical tree (what get_ptr builds, Layout.get_ptr_lay0) is one such layout *)
